@@ -278,8 +278,84 @@ def _s1(program, res):
             msg = (f"{s.func.qualname} uses the column name {s.pattern!r} ({s.how}) for its own purposes without checking it against the columns at hand: "
                    f"a user column of that name is overwritten, dropped or makes the step fail")
         res.fail_at("C15-S1", s.func, f"{s.backend}:{s.pattern}", msg, s.node)
+    _s1b_user_chosen_step_names(program, res)
+    _s1c_helper_scratch_columns(program, res)
     res.expect_count("C15-S1", "internal column-name sites in the executors", n_ex, 15)
     res.expect_count("C15-S1", "generated view-name sites in the SQL generator", n_sql, 9)
+
+
+def _s1b_user_chosen_step_names(program, res):
+    """besides tables, a pipeline can bring its own step name into the WITH list: a node whose to_near_sql_implementation_ quotes one of its own
+    attributes as the query name (SQLNode.view_name).  The numbering of the generated names has to start above those names too, or a user view called
+    extend_1 is silently replaced by the generated step of that name (near_sql takes equal names for the same step)"""
+    vr = program.module("view_representations")
+    ts = program.method("sql_model", "SQLModel", "to_sql", inherited=False)
+    attrs = []
+    for cls in vr.classes.values():
+        m = cls.methods.get("to_near_sql_implementation_")
+        if m is None:
+            continue
+        for c in ast.walk(m.node):
+            if isinstance(c, ast.Call) and isinstance(c.func, ast.Attribute) and c.func.attr == "quote_identifier" and c.args \
+                    and isinstance(c.args[0], ast.Attribute) and unparse(c.args[0].value) == "self":
+                used_as_name = any(isinstance(a_, ast.Assign) and unparse(a_.targets[0]) in ("quoted_query_name",) and any(x is c for x in ast.walk(a_.value)) for a_ in ast.walk(m.node)) \
+                    or any(isinstance(k, ast.keyword) and k.arg == "quoted_query_name" and any(x is c for x in ast.walk(k.value)) for k in ast.walk(m.node))
+                if used_as_name:
+                    attrs.append((cls, m, c.args[0].attr))
+    if not attrs:
+        res.ok("C15-S1", "no node brings a name of its own into the WITH list", nontrivial=False)
+        return
+    start = [st for st in ast.walk(ts.node) if isinstance(st, ast.Assign) and isinstance(st.targets[0], ast.Subscript) and unparse(st.targets[0].value) == "temp_id_source"
+             and any(isinstance(c, ast.Call) and dotted_name(c.func) == "max" for c in ast.walk(st.value))]
+    for cls, m, attr in attrs:
+        res.analysed(m)
+        if attr in ("table_name", "key"):
+            continue  # tables: covered by ops.get_tables() (rule above)
+        reads = [x for x in ast.walk(ts.node) if (isinstance(x, ast.Attribute) and x.attr == attr)
+                 or (isinstance(x, ast.Call) and dotted_name(x.func) == "getattr" and len(x.args) >= 2 and isinstance(x.args[1], ast.Constant) and x.args[1].value == attr)]
+        if start and reads:
+            res.ok("C15-S1", f"{cls.name}.{attr} (a user chosen step name) is read where the numbering of the generated names is started")
+        else:
+            res.fail_at("C15-S1", ts, f"sql:user-step-name-not-counted:{cls.name}.{attr}",
+                        f"{cls.name} puts its own `{attr}` into the WITH list as a query name, and SQLModel.to_sql starts the numbering of the generated names without looking at it: "
+                        f"a user view named extend_1 / project_2 is silently replaced by the generated step of that name (SQLite then reads a missing column as a string)", start[0] if start else None)
+
+
+def _s1c_helper_scratch_columns(program, res):
+    """the pipeline builders of solutions.py add columns of their own (`d.extend({"_da_…": …})`, record keys of a RecordSpecification): a user column
+    of that name would be overwritten silently, so the name has to be checked against the input's columns first (the module's idiom: an assert)"""
+    mod = program.modules.get("solutions")
+    if mod is None:
+        return
+    n = 0
+    for f in program.all_functions():
+        if f.module is not mod:
+            continue
+        written = {}
+        for c in ast.walk(f.node):
+            if isinstance(c, ast.Call) and isinstance(c.func, ast.Attribute) and c.func.attr == "extend" and c.args and isinstance(c.args[0], ast.Dict):
+                for k in c.args[0].keys:
+                    if isinstance(k, ast.Constant) and isinstance(k.value, str) and k.value.startswith("_da_"):
+                        written.setdefault(k.value, k)
+            if isinstance(c, ast.keyword) and c.arg == "record_keys" and isinstance(c.value, (ast.List, ast.Tuple)):
+                for k in c.value.elts:
+                    if isinstance(k, ast.Constant) and isinstance(k.value, str) and k.value.startswith("_da_"):
+                        written.setdefault(k.value, k)
+        if not written:
+            continue
+        res.analysed(f)
+        guards = [t for t in ast.walk(f.node) if isinstance(t, (ast.Assert, ast.If))]
+        for name, node in sorted(written.items()):
+            n += 1
+            checked = any(isinstance(cmp_, ast.Compare) and isinstance(cmp_.ops[0], (ast.NotIn, ast.In)) and isinstance(cmp_.left, ast.Constant) and cmp_.left.value == name
+                          for t in guards for cmp_ in ast.walk(t.test))
+            if checked:
+                res.ok("C15-S1", f"{f.qualname}: its own column {name!r} is checked against the input's columns")
+            else:
+                res.fail_at("C15-S1", f, f"helper:{name}",
+                            f"{f.qualname} adds the column {name!r} to the caller's table without checking the caller's columns: a column of that name is overwritten and the "
+                            f"scores computed from it are silently different", node)
+    res.expect_count("C15-S1", "scratch columns of the solutions helpers", n, 2)
 
 
 def _colname_vars(fnode) -> Set[str]:
